@@ -59,3 +59,24 @@ package generic
 //@ func generic.(*Aux).collectMethods
 //@   property C10
 //@   on-call collectMethods next-argument: $arg2 == ki + 1
+
+// ---------------------------------------------------------------------------
+// C11 / C06: flavors. A method defined after the flavors that inherit it is
+// inserted into their combination lists without losing or duplicating any
+// entry; a new daemon on a flavor is pushed down to every inheriting flavor.
+//@ pure-method Class.Name Class.InheritsList HasMethods.Methods
+
+//@ func generic.insertMethod
+//@   option no-lambda
+//@   property C11 C06
+//@   on-store Combinations inserted-len: len(now) == len(was) + 1 || len(was) == 0
+//@   on-store Combinations inserted-prefix: forall j :: (0 <= j && j < pos) ==> now[j] == old(m.Combinations[j])
+//@   on-store Combinations inserted-at: len(was) > 0 ==> now[pos] == combo
+//@   on-store Combinations inserted-suffix: forall j :: (pos <= j && j < len(was)) ==> now[j + 1] == old(m.Combinations[j])
+
+//@ func generic.DefClassMethod
+//@   property C11
+//@   count-calls AllClasses
+//@   count-stores Combinations
+//@   ensures pushed-down: $nstore_Combinations >= 1 ==> $ncall_AllClasses == 1
+//@   ensures one-prepend: $nstore_Combinations <= 1
